@@ -30,18 +30,110 @@ theorem vars_mem_combos {k n : Nat} (h : k ≤ n) : vars k ∈ combos (vars n) k
   have := mem_vars.1 hx
   omega
 
+theorem rejectVars_done {k n : Nat} {chosen : List Int} (h : k ≤ chosen.length) (ds : List Draw) :
+    rejectVars k n chosen ds = .ok (chosen, ds) := by
+  cases ds with
+  | nil => rw [rejectVars_nil, if_neg (by omega)]
+  | cons d rest => rw [rejectVars_cons, if_neg (by omega)]
+
+/-- `j, j-1, …, 1` as answers of `randint(1, n)` -/
+def descDraws (n : Nat) : Nat → List Draw
+  | 0 => []
+  | j + 1 => .randint 1 n ((j : Int) + 1) :: descDraws n j
+
+def upFrom (j len : Nat) : List Int := (List.range' (j + 1) len).map (fun (i : Nat) => (i : Int))
+
+theorem upFrom_zero (k : Nat) : upFrom 0 k = vars k := by
+  unfold upFrom vars
+  rw [List.range'_eq_map_range, List.map_map]
+  apply List.map_congr_left
+  intro i _
+  simp only [Function.comp]
+  push_cast; omega
+
+theorem descDraws_length (n j : Nat) : (descDraws n j).length = j := by
+  induction j with
+  | zero => rfl
+  | succ j ih => simp [descDraws, ih]
+
+theorem descDraws_legal {n : Nat} (j : Nat) (h : j ≤ n) : Legal (descDraws n j) := by
+  induction j with
+  | zero => exact Legal.nil
+  | succ j ih =>
+    simp only [descDraws]
+    rw [Legal.cons]
+    refine ⟨?_, ih (by omega)⟩
+    show (1 : Int) ≤ (j : Int) + 1 ∧ (j : Int) + 1 ≤ (n : Int)
+    omega
+
+theorem rejectVars_desc {k n : Nat} (t : List Draw) : ∀ j, j ≤ k →
+    rejectVars k n (upFrom j (k - j)) (descDraws n j ++ t) = .ok (upFrom 0 k, t) := by
+  intro j
+  induction j with
+  | zero => intro _; exact rejectVars_done (by simp [upFrom]) _
+  | succ j ih =>
+    intro hj
+    simp only [descDraws, List.cons_append]
+    rw [rejectVars_cons, if_pos (by simp [upFrom]; omega)]
+    simp only [true_and, if_true]
+    have hc : (upFrom (j + 1) (k - (j + 1))).contains ((j : Int) + 1) = false := by
+      rw [Bool.eq_false_iff]
+      intro hc
+      simp only [upFrom, List.contains_iff_mem, List.mem_map, List.mem_range'_1] at hc
+      obtain ⟨i, hi, hi'⟩ := hc
+      omega
+    rw [hc]
+    simp only [Bool.false_eq_true, if_false]
+    have : ((j : Int) + 1) :: upFrom (j + 1) (k - (j + 1)) = upFrom j (k - j) := by
+      unfold upFrom
+      have : k - j = (k - (j + 1)) + 1 := by omega
+      rw [this, List.range'_succ]
+      simp
+    rw [this]
+    exact ih (by omega)
+
+/-- the draws answering one call of `sample_variables(n, k)` with the variables `1..k` -/
+def varDraws (k n : Nat) : List Draw :=
+  if n ≤ sysMaxsize then [.sample n k (List.range k)] else descDraws n k
+
+theorem varDraws_length_le (k n : Nat) : (varDraws k n).length ≤ k + 1 := by
+  unfold varDraws; split
+  · simp
+  · rw [descDraws_length]; omega
+
+theorem varDraws_length_small {k n : Nat} (h : n ≤ sysMaxsize) : (varDraws k n).length = 1 := by
+  unfold varDraws; rw [if_pos h]; rfl
+
+theorem varDraws_legal {k n : Nat} (h : k ≤ n) : Legal (varDraws k n) := by
+  unfold varDraws; split
+  · rw [Legal.cons]
+    refine ⟨⟨by simp, List.nodup_range, ?_⟩, Legal.nil⟩
+    intro i hi; have := List.mem_range.1 hi; omega
+  · exact descDraws_legal k h
+
 theorem drawVars_const {k n : Nat} (h : k ≤ n) (t : List Draw) :
-    drawVars k n (.sample n k (List.range k) :: t) = .ok (vars k, t) := by
-  unfold drawVars
-  rw [RandM.bind_apply, sample_eq_ok.2 ⟨h, rfl⟩]
-  simp only [RandM.pure_apply]
-  have : isort ((List.range k).map (fun (i : Nat) => (i : Int) + 1)) = vars k :=
-    isort_of_sorted _ ((vars_strict k).imp (by intro a b hab; omega))
-  rw [this]
+    drawVars k n (varDraws k n ++ t) = .ok (vars k, t) := by
+  have hs : isort (vars k) = vars k := isort_of_sorted _ ((vars_strict k).imp (by intro a b hab; omega))
+  by_cases hn : n ≤ sysMaxsize
+  · rw [drawVars_small hn]; unfold varDraws; rw [if_pos hn]
+    simp only [List.cons_append, List.nil_append]
+    rw [RandM.bind_apply, sample_eq_ok.2 ⟨h, rfl⟩]
+    simp only [RandM.pure_apply]
+    have : (List.range k).map (fun (i : Nat) => (i : Int) + 1) = vars k := rfl
+    rw [this, hs]
+  · rw [drawVars_big hn, if_neg (by omega)]; unfold varDraws; rw [if_neg hn]
+    rw [RandM.bind_apply]
+    have := rejectVars_desc (k := k) (n := n) t k (Nat.le_refl k)
+    simp only [Nat.sub_self] at this
+    have e : upFrom k 0 = [] := rfl
+    rw [e] at this
+    rw [this]
+    simp only [RandM.pure_apply]
+    rw [upFrom_zero, hs]
 
 /-! ### k-CNF -/
 
-def constIter (k n : Nat) : List Draw := .sample n k (List.range k) :: List.replicate k (.choice 2 0)
+def constIter (k n : Nat) : List Draw := varDraws k n ++ List.replicate k (.choice 2 0)
 
 /-- `fuel` identical iterations followed by `t` -/
 def constDraws (k n : Nat) : Nat → List Draw → List Draw
@@ -49,7 +141,7 @@ def constDraws (k n : Nat) : Nat → List Draw → List Draw
   | f + 1, t => constIter k n ++ constDraws k n f t
 
 theorem constDraws_length (k n f : Nat) (t : List Draw) :
-    (constDraws k n f t).length = f * (k + 1) + t.length := by
+    (constDraws k n f t).length = f * ((varDraws k n).length + k) + t.length := by
   induction f with
   | zero => simp [constDraws]
   | succ f ih => simp [constDraws, constIter, ih, Nat.add_mul]; omega
@@ -60,9 +152,8 @@ theorem constDraws_legal {k n : Nat} (h : k ≤ n) (f : Nat) {t : List Draw} (ht
   | zero => exact ht
   | succ f ih =>
     simp only [constDraws, constIter]
-    rw [Legal.append, Legal.cons]
-    refine ⟨⟨⟨by simp, List.nodup_range, ?_⟩, ?_⟩, ih⟩
-    · intro i hi; have := List.mem_range.1 hi; omega
+    rw [Legal.append, Legal.append]
+    refine ⟨⟨varDraws_legal h, ?_⟩, ih⟩
     · intro d hd
       rw [List.mem_replicate] at hd
       rw [hd.2]; show 0 < 2; omega
@@ -90,7 +181,7 @@ theorem signClause_const (vs : List Int) (t : List Draw) :
 theorem drawClause_const {k n : Nat} (h : k ≤ n) (f : Nat) (t : List Draw) :
     drawClause k n (constDraws k n (f + 1) t) = .ok (vars k, constDraws k n f t) := by
   unfold drawClause
-  simp only [constDraws, constIter, List.cons_append]
+  simp only [constDraws, constIter, List.append_assoc]
   rw [RandM.bind_apply, drawVars_const h]
   simp only
   have := signClause_const (vars k) (constDraws k n f t)
@@ -136,10 +227,17 @@ theorem witnessDraws_legal {k n : Nat} (h : k ≤ n) (m : Nat) (planted : List (
   · exact Legal.nil
 
 theorem witnessDraws_length (k n m : Nat) (planted : List (List Int)) :
-    (witnessDraws k n m planted).length ≤ drawBudget k m := by
+    (witnessDraws k n m planted).length ≤ drawBudget (2 * k) m ∧
+      (n ≤ sysMaxsize → (witnessDraws k n m planted).length ≤ drawBudget k m) := by
   unfold witnessDraws drawBudget
   rw [constDraws_length]
-  split <;> simp
+  refine ⟨?_, fun hS => ?_⟩
+  · have h1 := varDraws_length_le k n
+    have h2 : retryBudget m * ((varDraws k n).length + k) ≤ retryBudget m * (2 * k + 1) :=
+      Nat.mul_le_mul_left _ (by omega)
+    split <;> simp <;> omega
+  · rw [varDraws_length_small hS, Nat.add_comm 1 k]
+    split <;> simp
 
 theorem sampleClauses_witness {k n : Nat} (h : k ≤ n) (m : Nat) (planted : List (List Int)) :
     Completed (sampleClauses k n m planted (witnessDraws k n m planted)) := by
@@ -148,7 +246,7 @@ theorem sampleClauses_witness {k n : Nat} (h : k ≤ n) (m : Nat) (planted : Lis
   generalize ht : (if m ≤ (allClauses k n planted).length
     then [Draw.sample (allClauses k n planted).length m (List.range m)] else []) = t at hL ⊢
   obtain ⟨res, j, hloop, hj⟩ := sparseLoop_const (m := m) planted h t (retryBudget m) []
-  obtain ⟨hI, hL1, _, _⟩ := sparseLoop_ok hL (accInv_nil k n m planted) hloop
+  obtain ⟨hI, hL1, _⟩ := sparseLoop_ok hL (accInv_nil k n m planted) hloop
   unfold sampleClauses
   rw [RandM.bind_apply, hloop]
   simp only
@@ -163,6 +261,10 @@ theorem sampleClauses_witness {k n : Nat} (h : k ≤ n) (m : Nat) (planted : Lis
     subst hj0
     simp only [constDraws]
     unfold denseClauses
+    by_cases hbig : sysMaxsize < n
+    · rw [if_pos hbig, RandM.raise_apply]
+      exact ⟨by simp, by simp⟩
+    rw [if_neg hbig]
     by_cases hlt : (allClauses k n planted).length < m
     · simp only [hlt, if_true, RandM.raise_apply]
       exact ⟨by simp, by simp⟩
@@ -177,14 +279,14 @@ theorem sampleClauses_witness {k n : Nat} (h : k ≤ n) (m : Nat) (planted : Lis
 
 /-! ### k-XOR -/
 
-def constIterX (k n : Nat) : List Draw := [.sample n k (List.range k), .randint 0 1 0]
+def constIterX (k n : Nat) : List Draw := varDraws k n ++ [.randint 0 1 0]
 
 def constDrawsX (k n : Nat) : Nat → List Draw → List Draw
   | 0, t => t
   | f + 1, t => constIterX k n ++ constDrawsX k n f t
 
 theorem constDrawsX_length (k n f : Nat) (t : List Draw) :
-    (constDrawsX k n f t).length = f * 2 + t.length := by
+    (constDrawsX k n f t).length = f * ((varDraws k n).length + 1) + t.length := by
   induction f with
   | zero => simp [constDrawsX]
   | succ f ih => simp [constDrawsX, constIterX, ih, Nat.add_mul]; omega
@@ -194,11 +296,10 @@ theorem constDrawsX_legal {k n : Nat} (h : k ≤ n) (f : Nat) {t : List Draw} (h
   induction f with
   | zero => exact ht
   | succ f ih =>
-    simp only [constDrawsX, constIterX, List.cons_append, List.nil_append]
-    rw [Legal.cons, Legal.cons]
-    refine ⟨⟨by simp, List.nodup_range, ?_⟩, ?_, ih⟩
-    · intro i hi; have := List.mem_range.1 hi; omega
-    · show (0 : Int) ≤ 0 ∧ (0 : Int) ≤ 1; omega
+    simp only [constDrawsX, constIterX]
+    rw [Legal.append, Legal.append, Legal.cons]
+    refine ⟨⟨varDraws_legal h, ?_, Legal.nil⟩, ih⟩
+    show (0 : Int) ≤ 0 ∧ (0 : Int) ≤ 1; omega
 
 theorem sparseLoopX_const {k n m : Nat} {planted : List (List Int)} (hT : ∀ a ∈ planted, TotalOn n a)
     (h : k ≤ n) (t : List Draw) (fuel : Nat) (acc : List Parity) :
@@ -209,7 +310,7 @@ theorem sparseLoopX_const {k n m : Nat} {planted : List (List Int)} (hT : ∀ a 
   | succ fuel ih =>
     rw [sparseLoopX_unfold]
     by_cases hlt : acc.length < m
-    · simp only [hlt, if_true, constDrawsX, constIterX, List.cons_append, List.nil_append]
+    · simp only [hlt, if_true, constDrawsX, constIterX, List.append_assoc, List.cons_append, List.nil_append]
       rw [RandM.bind_apply, drawVars_const h]
       simp only
       rw [RandM.bind_apply, randint_eq_ok.2 ⟨by omega, rfl⟩]
@@ -243,10 +344,19 @@ theorem witnessDrawsX_legal {k n : Nat} (h : k ≤ n) (m : Nat) (full : List Par
   · exact Legal.nil
 
 theorem witnessDrawsX_length (k n m : Nat) (full : List Parity) :
-    (witnessDrawsX k n m full).length ≤ drawBudgetX m := by
-  unfold witnessDrawsX drawBudgetX
+    (witnessDrawsX k n m full).length ≤ drawBudget k m + retryBudget m ∧
+      (n ≤ sysMaxsize → (witnessDrawsX k n m full).length ≤ drawBudgetX m) := by
+  unfold witnessDrawsX drawBudgetX drawBudget
   rw [constDrawsX_length]
-  split <;> simp
+  refine ⟨?_, fun hS => ?_⟩
+  · have h1 := varDraws_length_le k n
+    have h2 : retryBudget m * ((varDraws k n).length + 1) ≤ retryBudget m * (k + 1 + 1) :=
+      Nat.mul_le_mul_left _ (by omega)
+    have h3 : retryBudget m * (k + 1 + 1) = retryBudget m * (k + 1) + retryBudget m := by
+      rw [Nat.mul_add (retryBudget m) (k + 1) 1, Nat.mul_one]
+    split <;> simp <;> omega
+  · rw [varDraws_length_small hS]
+    split <;> simp
 
 theorem sampleParities_witness {k n : Nat} {planted : List (List Int)} (hT : ∀ a ∈ planted, TotalOn n a)
     (h : k ≤ n) (m : Nat) {full : List Parity} (hfull : allGoodParities k n planted = .ok full) :
@@ -255,7 +365,7 @@ theorem sampleParities_witness {k n : Nat} {planted : List (List Int)} (hT : ∀
   unfold witnessDrawsX at hL ⊢
   generalize ht : (if m ≤ full.length then [Draw.sample full.length m (List.range m)] else []) = t at hL ⊢
   obtain ⟨res, j, hloop, hj⟩ := sparseLoopX_const (m := m) hT h t (retryBudget m) []
-  obtain ⟨hI, hL1, _, _⟩ := sparseLoopX_ok hT hL (accInvX_nil k n m planted) hloop
+  obtain ⟨hI, hL1, _⟩ := sparseLoopX_ok hT hL (accInvX_nil k n m planted) hloop
   unfold sampleParities
   rw [RandM.bind_apply, hloop]
   simp only
@@ -270,7 +380,10 @@ theorem sampleParities_witness {k n : Nat} {planted : List (List Int)} (hT : ∀
     subst hj0
     simp only [constDrawsX]
     unfold denseParities
-    rw [hfull, RandM.lift_ok, RandM.bind_apply, RandM.pure_apply]
+    by_cases hbig : sysMaxsize < n
+    · rw [if_pos hbig, RandM.raise_apply]
+      exact ⟨by simp, by simp⟩
+    rw [if_neg hbig, hfull, RandM.lift_ok, RandM.bind_apply, RandM.pure_apply]
     simp only
     by_cases hlt : full.length < m
     · simp only [hlt, if_true, RandM.raise_apply]
@@ -283,5 +396,47 @@ theorem sampleParities_witness {k n : Nat} {planted : List (List Int)} (hT : ∀
       rw [RandM.bind_apply, sample_eq_ok.2 ⟨by omega, rfl⟩]
       simp only [RandM.pure_apply]
       exact ⟨by simp, by simp⟩
+
+/-! ### termination of the rejection loop of `sample_variables` -/
+
+theorem rejectVars_terminates {k n : Nat} : ∀ (ds : List Draw) (chosen vs : List Int),
+    (∀ d ∈ ds, ∃ v, d = .randint 1 n v) → vs.Nodup → (∀ v ∈ vs, v ∉ chosen ∧ Draw.randint 1 n v ∈ ds) →
+    k ≤ chosen.length + vs.length → ∃ sel ds', rejectVars k n chosen ds = .ok (sel, ds') := by
+  intro ds
+  induction ds with
+  | nil =>
+    intro chosen vs _ _ hm hk
+    have : vs = [] := by
+      cases vs with
+      | nil => rfl
+      | cons v vs' => exact absurd (hm v (by simp)).2 (by simp)
+    subst this
+    exact ⟨chosen, [], rejectVars_done (by simpa using hk) _⟩
+  | cons d rest ih =>
+    intro chosen vs hds hnd hm hk
+    by_cases hlt : chosen.length < k
+    · obtain ⟨v, rfl⟩ := hds d (by simp)
+      rw [rejectVars_cons, if_pos hlt]
+      simp only [true_and, if_true]
+      apply ih _ (vs.erase v) (fun d hd => hds d (by simp [hd])) (hnd.erase v)
+      · intro w hw
+        obtain ⟨hne, hw'⟩ := (hnd.mem_erase_iff).1 hw
+        obtain ⟨h1, h2⟩ := hm w hw'
+        refine ⟨?_, ?_⟩
+        · split
+          · exact h1
+          · simp only [List.mem_cons, not_or]; exact ⟨hne, h1⟩
+        · rcases List.mem_cons.1 h2 with h2 | h2
+          · simp only [Draw.randint.injEq, true_and] at h2; exact absurd h2 hne
+          · exact h2
+      · by_cases hc : chosen.contains v = true
+        · rw [if_pos hc]
+          have : v ∉ vs := fun hv => (hm v hv).1 (by simpa using hc)
+          rw [List.erase_of_not_mem this]; exact hk
+        · rw [if_neg hc]
+          have := List.length_erase (a := v) (l := vs)
+          simp only [List.length_cons]
+          split at this <;> omega
+    · exact ⟨chosen, d :: rest, rejectVars_done (by omega) _⟩
 
 end Cnfgen.Rand
